@@ -1,4 +1,4 @@
-import Poly.Proofs.LedgerChain
+import Poly.Proofs.LedgerRestart
 /-!
 # C12 — Ledger recovers exactly after a crash at any persistence point
 
@@ -143,6 +143,34 @@ theorem restart_keeps_everything (p : Params) (g : Block) (hg : g.header.height 
   rw [hd, hs.blockTree] at a1
   rw [hd, hs.stateTree] at a2
   exact ⟨hd, e1, e2, (Option.some.inj a1).symm, (Option.some.inj a2).symm⟩
+
+/-- **A restart of a reachable ledger succeeds.** On every ledger reached by a history of first start, submissions,
+header deliveries, restarts and crashes (no two different blocks / headers with the same hash, no all-zero block hash —
+`NoColl`), `NewLedgerStore` + `InitLedgerStoreWithGenesisBlock` runs to completion: the accumulator sizes match the
+state height, the hash file is long enough, the version key and the genesis block are there, `loadHeaderIndexList`
+finds a non-zero block hash for every height between the stored header-index batches (`HEADER_INDEX_BATCH_SIZE` each;
+any batch size) and the tip, `recoverStore` has nothing to replay — and the validator sets load, *provided* the tip
+header's consensus payload decodes and announces a configuration or names, in `LastConfigBlockNum`, a committed height
+whose header does (`TipCfgSound`; the ledger never checks that field, the consensus layer that signs headers does). -/
+theorem restart_succeeds (p : Params) (g : Block) (hg : g.header.height = 0) (hnz : g.header.hash ≠ zeroHash)
+    (s : State) (hr : ReachV p g s) (hcfg : TipCfgSound s) : ∃ t, reopen p g s.dur = .ok t :=
+  reachV_restart_succeeds p g hg hnz s hr hcfg
+
+/-- What `loadHeaderIndexList` relies on holds on every such ledger: every height up to the tip has a non-zero block
+hash; the stored header-index batches are exactly the block hashes of the heights they cover and never reach beyond
+the tip; the in-memory header index agrees with the block store on committed heights, its keys are `0 … count-1`, and
+the header height is at least the block height. -/
+theorem header_index_consistent (p : Params) (g : Block) (hg : g.header.height = 0) (hnz : g.header.hash ≠ zeroHash)
+    (s : State) (hr : ReachV p g s) :
+    (∀ i h, s.dur.blocks.hashAt i = some h → h ≠ zeroHash) ∧
+    s.mem.storedIndexCount = s.dur.blocks.indexList.length ∧
+    (∀ j, j < s.dur.blocks.indexList.length → s.dur.blocks.indexList[j]? = s.dur.blocks.hashAt j) ∧
+    s.dur.blocks.indexList.length ≤ s.mem.currHeight + 1 ∧
+    (∀ j, j ≤ s.mem.currHeight → s.mem.headerIndex j = s.dur.blocks.hashAt j) ∧
+    (∀ j, (s.mem.headerIndex j).isSome ↔ j < s.mem.headerCount) ∧
+    s.mem.currHeight + 1 ≤ s.mem.headerCount := by
+  have hi := reachV_indexInv p g hg hnz s hr
+  exact ⟨hi.nonzero, hi.storedLen, hi.listIdx, hi.listLen, hi.memIdx, hi.keys, hi.ahead⟩
 
 /-- **Invariant of every reachable ledger** (any history including crashes): block store, state store and memory
 name the same current block, both accumulators have height + 1 leaves and are the persisted ones, the hash file
